@@ -147,11 +147,17 @@ def _flag_names(fn: ast.AST) -> Set[str]:
 
 
 def _closure_uses(node, name: str) -> bool:
+    """Is `name` read by a function / lambda nested in node as a *free* variable (one the nested scope does not bind itself)?"""
     nodes = node if isinstance(node, list) else [node]
     for r in nodes:
         for n in ast.walk(r):
             if isinstance(n, (ast.Lambda, ast.FunctionDef, ast.AsyncFunctionDef)) and n is not r and _uses(n, name):
-                return True
+                own = {a.arg for a in ast.walk(n.args) if isinstance(a, ast.arg)}
+                if isinstance(n, (ast.FunctionDef, ast.AsyncFunctionDef)):
+                    nonloc = {x for g in ast.walk(n) if isinstance(g, (ast.Nonlocal, ast.Global)) for x in g.names}
+                    own |= {x.id for x in ast.walk(n) if isinstance(x, ast.Name) and isinstance(x.ctx, ast.Store)} - nonloc
+                if name not in own:
+                    return True
     return False
 
 
@@ -482,10 +488,29 @@ def live_in(stmts: Sequence[ast.stmt], nm: str, noreturn: Set[str]) -> Optional[
             if live_in(s.body, nm, noreturn) is True or live_in(s.orelse, nm, noreturn) is True:
                 return True
             continue
+        if isinstance(s, (ast.With, ast.AsyncWith)):
+            if any(_uses(it.context_expr, nm) for it in s.items):
+                return True
+            r_ = live_in(s.body, nm, noreturn)
+            if r_ is not None:
+                return r_
+            continue
+        if isinstance(s, ast.Try):
+            # read before being bound again in the body, a handler, else or finally: live; otherwise the old value may
+            # still flow past (an exception can leave the body before it binds the name)
+            if live_in(s.body, nm, noreturn) is True or any(live_in(h.body, nm, noreturn) is True for h in s.handlers) or live_in(s.orelse, nm, noreturn) is True or live_in(s.finalbody, nm, noreturn) is True:
+                return True
+            if _closure_uses(s, nm):
+                return True
+            continue
+        if isinstance(s, (ast.FunctionDef, ast.AsyncFunctionDef, ast.ClassDef)):
+            if _closure_uses([s], nm) or (isinstance(s, ast.ClassDef) and _uses(s, nm)):
+                return True
+            continue
         if _uses(s, nm):
             return True
-        if isinstance(s, (ast.Try, ast.With, ast.AsyncWith, ast.Match, ast.FunctionDef, ast.AsyncFunctionDef, ast.ClassDef)):
-            continue  # not read inside; a binding inside may or may not happen: keep looking
+        if isinstance(s, ast.Match):
+            continue
         if _ends([s], noreturn):
             return False
     return None
@@ -513,8 +538,9 @@ def live_after(fn: ast.AST, blk: List[ast.stmt], j: int, nm: str, noreturn: Set[
                 return True
             if _uses(owner.orelse, nm):
                 return True
-        if isinstance(owner, (ast.Try, ast.With, ast.AsyncWith, ast.Match)):
-            if _uses(owner, nm) and isinstance(owner, ast.Try):
+        if isinstance(owner, ast.Try):
+            # from inside a try statement control may go on into a handler, the else or the finally block
+            if any(live_in(h.body, nm, noreturn) is True for h in owner.handlers if h.body is not blk) or (owner.orelse is not blk and live_in(owner.orelse, nm, noreturn) is True) or (owner.finalbody is not blk and live_in(owner.finalbody, nm, noreturn) is True):
                 return True
         blk, j = b2, k
 
